@@ -19,21 +19,33 @@ def tag_of(node):
 
 
 def encoder_table(ctx, enc):
-    """tag -> (isinstance classes text, payload expr) from the `default` method's if/elif chain."""
-    d = enc.methods['default']
+    """tag -> (isinstance test, payload expr, all (path values, payload) cases) from the paths of the `default` method: the last
+    isinstance test answered True on a path that returns a one-key dict.  Payloads are resolved along the path, so a helper
+    that builds the payload (inlined) or a local in between does not matter."""
+    from sa.model import norm_guard
+    from sa.pathvals import PathValues
+    from sa.paths import Enumerator
+    d = ctx.N(enc.methods['default'])
     out = {}
-    for n in ast.walk(d.node):
-        if isinstance(n, ast.If) and isinstance(n.test, ast.Call) and u(n.test.func) == 'isinstance':
-            for st in n.body:
-                if isinstance(st, ast.Return) and isinstance(st.value, ast.Dict) and len(st.value.keys) == 1:
-                    t = tag_of(st.value.keys[0])
-                    if t:
-                        out[t] = (n.test, st.value.values[0])
+    for p in Enumerator(where=d.qualname).paths(d.node.body):
+        pv = PathValues(p)
+        if not pv.returns or not isinstance(pv.returns[0], ast.Dict) or len(pv.returns[0].keys) != 1:
+            continue
+        t = tag_of(pv.returns[0].keys[0])
+        tests = []
+        for (g, pol), (g0, _pol0) in zip(pv.guards, p.guards()):
+            gg, pp = norm_guard(g, pol)
+            if pp and isinstance(gg, ast.Call) and u(gg.func) == 'isinstance':
+                tests.append(norm_guard(g0, _pol0)[0])
+        if t and tests:
+            cur = out.get(t)
+            cases = (cur[2] if cur else []) + [(pv, pv.returns[0].values[0])]
+            out[t] = (tests[-1], pv.returns[0].values[0], cases)
     return d, out
 
 
 def decoder_table(ctx, dec):
-    h = dec.methods['object_hook']
+    h = ctx.N(dec.methods['object_hook'])
     out = {}
     for n in ast.walk(h.node):
         if isinstance(n, ast.If) and isinstance(n.test, ast.Compare) and isinstance(n.test.ops[0], ast.In):
@@ -69,7 +81,7 @@ def check(ctx):
         'type{set}': dict(cls='set', enc='list(', dec='set('),
     }
     for tag in sorted(set(et) & set(dt)):
-        test, payload = et[tag]
+        test, payload, _cases = et[tag]
         branch = dt[tag]
         spec = pairs.get(tag)
         if spec is None:
@@ -96,21 +108,45 @@ def check(ctx):
                   'what the encoder writes for %s is not what the decoder reads' % tag, detail=detail)
     # datetime payload: 3-tuple <-> 3-unpack, offset in seconds <-> timedelta(seconds=)
     if 'type{datetime}' in et and 'type{datetime}' in dt:
+        cases = et['type{datetime}'][2]
         payload = et['type{datetime}'][1]
         branch = dt['type{datetime}']
         unp = [n for n in ast.walk(branch) if isinstance(n, ast.Assign) and isinstance(n.targets[0], ast.Tuple)]
-        ok = isinstance(payload, ast.Tuple) and len(payload.elts) == 3 and len(unp) == 1 and len(unp[0].targets[0].elts) == 3
+        ok = all(isinstance(pl, ast.Tuple) and len(pl.elts) == 3 for _pv, pl in cases) and len(unp) == 1 and \
+            len(unp[0].targets[0].elts) == 3
         run.check(ok, 'R16', where(repo, payload), d.qualname, 'datetime payload (iso, offset, tzname) <-> 3-unpack',
                   'the datetime payload written and the tuple unpacked have different shapes')
         if ok:
+            from sa.model import norm_compare
+            from sa.pattern import match_expr as _me
             iso, ofs, tzn = [t.id for t in unp[0].targets[0].elts]
             btxt = ' '.join(u(s) for s in branch.body)
-            ok2 = 'timedelta(seconds=%s)' % ofs in btxt and 'strptime(%s' % iso in btxt and \
-                '.strftime(' in u(payload.elts[0]) and 'utcoffset()' in u(payload.elts[1]) and 'tzname()' in u(payload.elts[2])
-            run.check(ok2, 'R16', where(repo, payload), d.qualname, 'offset seconds <-> timedelta(seconds=offset); tzname()',
+            ok2 = 'timedelta(seconds=%s)' % ofs in btxt and 'strptime(%s' % iso in btxt
+            # offset cases: (aware?, expression) from a conditional expression or from the guards of the path
+            offs = []
+            for pv_, pl in cases:
+                ok2 = ok2 and '.strftime(' in u(pl.elts[0]) and _me('__X.tzname()', pl.elts[2]) is not None
+                e1 = pl.elts[1]
+                if isinstance(e1, ast.IfExp):
+                    t_, pol_ = norm_compare(e1.test, True)
+                    aware = _me('__X.utcoffset() is None', t_) is not None
+                    offs.append((not pol_ if aware else None, e1.body))
+                    offs.append((pol_ if aware else None, e1.orelse))
+                else:
+                    aware = None
+                    for g, pol in pv_.guards:
+                        g, pol = norm_compare(g, pol)
+                        if _me('__X.utcoffset() is None', g) is not None:
+                            aware = not pol
+                    offs.append((aware, e1))
+            ok2 = ok2 and all(a is not None for a, _ in offs)
+            run.check(ok2 and all('utcoffset()' in u(e) for a, e in offs if a), 'R16', where(repo, payload), d.qualname,
+                      'offset seconds <-> timedelta(seconds=offset); tzname()',
                       'the three datetime components are not read back in the roles they were written in')
             # naive datetimes: None offset written iff utcoffset() is None; decoder keys on tzname None
-            run.check('is not None else None' in u(payload.elts[1]), 'R16', where(repo, payload), d.qualname,
+            naive = [e for a, e in offs if a is False]
+            run.check(bool(naive) and all(isinstance(e, ast.Constant) and e.value is None for e in naive) and
+                      any(a for a, _ in offs), 'R16', where(repo, payload), d.qualname,
                       'offset None for naive datetimes', 'a naive datetime does not round-trip as naive')
     abstypes.r17_isinstance_order(ctx, [d], floor=1)
 
@@ -156,20 +192,24 @@ def check(ctx):
                     'links; otherwise it is the preceding links followed by the writer; the parent flow hands the preceding links '
                     'over and keeps only the checkpoint')
     ck = repo.cls('dataflows.processors.checkpoint:checkpoint')
-    pc = ck.methods['_preprocess_chain']
-    iff = [n for n in own_nodes(pc.node) if isinstance(n, ast.If)]
-    if len(iff) != 1:
-        raise AnalysisError('checkpoint._preprocess_chain: single exists-test not found')
-    yes = [n for s in iff[0].body for n in ast.walk(s) if isinstance(n, ast.Return)]
-    no = [n for s in iff[0].orelse for n in ast.walk(s) if isinstance(n, ast.Return)]
-    ok = len(yes) == 1 and 'self.chain' not in u(yes[0].value) and isinstance(yes[0].value, ast.Tuple) and \
-        len(yes[0].value.elts) == 1 and u(yes[0].value.elts[0]) == 'unstream(self.filename)'
-    run.check(ok, 'CKP', where(repo, iff[0]), pc.qualname, 'exists: return (unstream(self.filename),)',
+    from rules import commits as _commits
+    from sa.pattern import match_expr as _me
+    pc, cases = _commits.checkpoint_chain_cases(ctx)
+    yes = [v for pol, a, v, _ in cases if pol is True]
+    no = [v for pol, a, v, _ in cases if pol is False]
+    if any(pol is None for pol, a, v, _ in cases):
+        raise AnalysisError('checkpoint._preprocess_chain: a path does not depend on the exists-test')
+    ok = bool(yes) and all(v is not None and (_me('(unstream(self.filename),)', v) is not None or
+                                               _me('[unstream(self.filename)]', v) is not None) for v in yes)
+    run.check(ok, 'CKP', pc.where, pc.qualname, 'exists: return (unstream(self.filename),)',
               'with an existing checkpoint the steps before it are still part of the chain (they would run again)')
-    ok = len(no) == 1 and isinstance(no[0].value, ast.Call) and res.external_name(no[0].value) == 'itertools.chain' and \
-        len(no[0].value.args) == 2 and pseudo(no[0].value.args[0]) == 'self.chain' and \
-        isinstance(no[0].value.args[1], ast.Tuple) and u(no[0].value.args[1].elts[0]) == 'stream(self.filename)'
-    run.check(ok, 'CKP', where(repo, iff[0]), pc.qualname, 'else: return chain(self.chain, (stream(self.filename), notifier))',
+    ok = bool(no)
+    for v in no:
+        good = isinstance(v, ast.Call) and u(v.func) in ('itertools.chain', 'chain') and len(v.args) == 2 and \
+            pseudo(v.args[0]) == 'self.chain' and isinstance(v.args[1], (ast.Tuple, ast.List)) and v.args[1].elts and \
+            _me('stream(self.filename)', v.args[1].elts[0]) is not None
+        ok = ok and good
+    run.check(ok, 'CKP', pc.where, pc.qualname, 'else: return chain(self.chain, (stream(self.filename), notifier))',
               'on the first run the writer is not placed right after the preceding links')
     hf = ck.methods['handle_flow_checkpoint']
     body = u(hf.node)
@@ -222,7 +262,35 @@ def check(ctx):
     run.check(ok, 'R25', rd.where, rd.qualname, 'readline -> loads, blank -> None', 'the reader does not read one document per line')
     loops = [n for n in own_nodes(rr.node) if isinstance(n, ast.While)]
     ok = len(loops) == 1
-    if ok:
+    reads_of = lambda nodes: [c for c in nodes if isinstance(c, ast.Call) and pseudo(c.func) == rd.name]
+    from sa.model import norm_compare as _nc
+    if ok and not (isinstance(loops[0].test, ast.Constant) and loops[0].test.value is True):
+        # read-ahead form:  v = read(); while v is not None: yield v; v = read()      (or  while (v := read()) is not None: yield v)
+        lp_ = loops[0]
+        t_, pol_ = _nc(lp_.test, True)
+        walrus = isinstance(t_, ast.Compare) and isinstance(t_.left, ast.NamedExpr)
+        v_ = pseudo(t_.left.target) if walrus else (pseudo(t_.left) if isinstance(t_, ast.Compare) else None)
+        ok = v_ is not None and isinstance(t_, ast.Compare) and isinstance(t_.ops[0], ast.Is) and not pol_ and \
+            isinstance(t_.comparators[0], ast.Constant) and t_.comparators[0].value is None
+        if ok and walrus:
+            ok = bool(reads_of([t_.left.value]))
+        pre = [st for st in rr.node.body if st is not lp_ and getattr(st, 'lineno', 0) < lp_.lineno]
+        post = [st for st in rr.node.body if st is not lp_ and getattr(st, 'lineno', 0) > lp_.lineno]
+        if ok and not walrus:
+            pre_reads = [st for st in pre if isinstance(st, ast.Assign) and pseudo(st.targets[0]) == v_ and reads_of([st.value])]
+            ok = len(pre_reads) == 1 and len(reads_of([n for st in pre for n in ast.walk(st)])) == 1
+        ok = ok and not reads_of([n for st in post for n in ast.walk(st)]) and not lp_.orelse
+        for p_ in (Enumerator(where=rr.qualname).body_paths(lp_) if ok else []):
+            evs = []
+            for n in path_nodes(p_):
+                if isinstance(n, ast.Yield):
+                    evs.append('Y' if pseudo(n.value) == v_ else 'y?')
+                elif isinstance(n, ast.Assign) and pseudo(n.targets[0]) == v_:
+                    evs.append('R' if reads_of([n.value]) else 'w?')
+                elif reads_of([n]) and not any(isinstance(a, ast.Assign) and a.value is n for a in path_nodes(p_)):
+                    evs.append('r?')
+            ok = ok and evs == (['Y'] if walrus else ['Y', 'R']) and p_.term in ('fall', 'continue')
+    elif ok:
         for p_ in Enumerator(where=rr.qualname).body_paths(loops[0]):
             ys = [y for y in path_nodes(p_) if isinstance(y, ast.Yield)]
             isnone = [pol if isinstance(t.ops[0], ast.IsNot) else not pol for t, pol in p_.guards()
